@@ -26,6 +26,11 @@ model with the catalog-cache protocol `Sql/CatalogCache.lean` whose coherence is
 `insert_after_committed_unique_index_rejects_duplicate`, `insert_after_committed_not_null_enforced_partial`,
 witnesses `stale_schema_admits_duplicate` / `same_schedule_code_rejects_duplicate`.
 
+Values AS WRITTEN (added for the seeded change c12-c; `Sql/Conv.lean`: the TIMESTAMP converters, the key the
+statement probes and the key the indexer derives from the stored row): `probe_key_is_indexer_key`,
+`timestamp_from_string_probe_key_is_indexer_key`, `timestamp_spellings_of_one_stored_value_probe_one_key`, witness
+`untruncated_timestamp_probe_key_differs`.
+
 both are issued by `execAt`/`doUpsert` through the SQL transaction's `OngoingTx` (`tx.get`,
 `tx.getWithPrefix`).  In model terms this is `uniqueness_reads_in_readset`: the uniqueness decision
 depends on nothing but the entries under the read prefix.
@@ -33,6 +38,7 @@ depends on nothing but the entries under the read prefix.
 import ImmuModel.Sql.Proofs.DmlMain
 import ImmuModel.Sql.Proofs.SessionsMain
 import ImmuModel.Sql.Proofs.CatalogDmlMain
+import ImmuModel.Sql.Proofs.ConvMain
 
 namespace ImmuModel.Props.C12
 open ImmuModel ImmuModel.Sql
@@ -430,5 +436,52 @@ example : findTx 2 (CatCache.run codeCfg {} wOpsStale).1.txs = none ∧
   ⟨by decide, rfl, rfl, rfl, rfl, rfl⟩
 
 end CatalogGenerations
+
+-- =============================================================== values as written (c12-c)
+
+/-- **A value at the stored precision has ONE key.** For every column type: if the value the statement works with
+is reproduced exactly by the row codec (`truncMicros v = v`: no digits below the microsecond), the key the indexer
+derives from the committed row (`EncodeValueAsKey (DecodeValue (EncodeValue v))`) is the key the statement probes
+(`EncodeValueAsKey v`) — the primary-key existence read and the UNIQUE prefix read look exactly where the committed
+entry of an equal stored value is. -/
+theorem probe_key_is_indexer_key (ty : SqlType) (maxLen keyLen : Int) (v : Val)
+    (hv : validValue ty maxLen v = true) (hnn : v ≠ .null) (hp : truncMicros v = v) :
+    Conv.indexerKey v ty maxLen keyLen = Conv.probeKey v ty keyLen :=
+  Conv.MainAux.indexerKey_eq_probeKey hv hnn hp
+
+/-- **TIMESTAMP from text** (string literal, VARCHAR parameter, CAST, every layout and every number of fractional
+digits: `(sec, nsec)` is the instant `time.ParseInLocation` returned): the converter truncates to the microsecond
+BEFORE the key is encoded, so probe key = indexer key. The same holds for a `time.Time` parameter
+(`Conv.timeParamToTs` is the same function). -/
+theorem timestamp_from_string_probe_key_is_indexer_key (sec : Int) (nsec : Nat) (hn : nsec < 1000000000)
+    (hr : GoInt.InI64 (sec * 1000000 + ((nsec / 1000 : Nat) : Int))) :
+    Conv.indexerKey (Conv.strToTs sec nsec) .timestamp 0 8 = Conv.probeKey (Conv.strToTs sec nsec) .timestamp 8 :=
+  Conv.MainAux.indexerKey_eq_probeKey (Conv.MainAux.validValue_strToTs hn hr 0) (by simp [Conv.strToTs])
+    (Conv.MainAux.truncMicros_strToTs sec nsec)
+
+/-- Two texts denoting instants within the same microsecond are converted to the same value: they probe the same
+key, whatever their sub-microsecond digits. -/
+theorem timestamp_spellings_of_one_stored_value_probe_one_key (sec : Int) (n1 n2 : Nat) (h : n1 / 1000 = n2 / 1000) :
+    Conv.probeKey (Conv.strToTs sec n1) .timestamp 8 = Conv.probeKey (Conv.strToTs sec n2) .timestamp 8 := by
+  have e : n1 - n1 % 1000 = n2 - n2 % 1000 := by omega
+  simp [Conv.strToTs, Conv.truncMicro, e]
+
+/-- **Witness: without the truncation the two keys differ.** `'2024-05-06 07:08:09.123456789'` converted WITHOUT
+`Truncate(time.Microsecond)`: the statement probes the nanosecond key `…5b0715`, the committed entry of the row
+it stores — which is also the entry of the row written as `…09.123456` — is `…5b0400`: the existence check misses
+the live row (duplicate under a UNIQUE index, silent overwrite of a primary key). With the truncation the probe is
+`…5b0400` (last conjunct). -/
+theorem untruncated_timestamp_probe_key_differs :
+    ∃ kp ki, Conv.probeKey (Conv.strToTsNoTrunc 1714979289 123456789) .timestamp 8 = .ok (kp, 8) ∧
+      Conv.indexerKey (Conv.strToTsNoTrunc 1714979289 123456789) .timestamp 0 8 = .ok (ki, 8) ∧
+      Conv.indexerKey (Conv.strToTs 1714979289 123456000) .timestamp 0 8 = .ok (ki, 8) ∧ kp ≠ ki ∧
+      Conv.probeKey (Conv.strToTs 1714979289 123456789) .timestamp 8 = .ok (ki, 8) :=
+  ⟨[128, 151, 204, 212, 147, 189, 91, 7, 21], [128, 151, 204, 212, 147, 189, 91, 4, 0],
+    by decide, by decide, by decide, by decide, by decide⟩
+
+example : validValue .timestamp 0 (Conv.strToTs 1714979289 123456789) = true ∧
+    truncMicros (Conv.strToTs 1714979289 123456789) = Conv.strToTs 1714979289 123456789 ∧
+    Conv.strToTs 1714979289 123456789 ≠ .null := by decide
+
 
 end ImmuModel.Props.C12
